@@ -67,6 +67,10 @@ def units(tier):
             u.append(("roundtrip[map %s->%s]" % (key, vk), h_roundtrip, {"cat": ["s1map", key, vk]}))
     for name in catalogue.S2_NAMES:
         u.append(("roundtrip[s2 %s]" % name, h_roundtrip, {"cat": ["s2", name]}))
+    from .c09 import h_long
+
+    for kind in ("string", "bytes", "message", "packed", "map"):
+        u.append(("long-payload[%s]" % kind, h_long, {"kind": kind}))
     return u
 
 
